@@ -43,7 +43,7 @@ var Checks = map[string]CheckSpec{
 	"C15": {Property: "C15", Level: "exploration", Profiles: []string{"genesis"}, QuickS: 50, ThoroughS: 600},
 	"C16": {Property: "C16", Level: "exploration", Profiles: []string{"book", "rounds", "fixed", "vesting"}, Opts: ExecOpts{Queries: true, QueryEvery: 4}, QuickS: 45, ThoroughS: 600},
 	"C17": {Property: "C17", Level: "fault_enumeration", Custom: "hooks", Profiles: []string{"hooks", "book", "clock", "fixed"}, QuickS: 40, ThoroughS: 600},
-	"C20": {Property: "C20", Level: "exploration", Custom: "cli", QuickS: 60, ThoroughS: 600},
+	"C20": {Property: "C20", Level: "exploration", Custom: "cli", QuickS: 45, ThoroughS: 600},
 	"C18": {Property: "C18", Level: "exploration", Profiles: []string{"messages", "general", "messages", "extreme"}, Opts: ExecOpts{Trace: true}, QuickS: 50, ThoroughS: 600},
 	"C19": {Property: "C19", Level: "exploration", Profiles: []string{"concurrent", "general"}, Opts: ExecOpts{Trace: true}, QuickS: 50, ThoroughS: 600},
 }
